@@ -25,7 +25,8 @@ FD_STDERR = FD_BASE - 2
 
 
 class Inode:
-    __slots__ = ("kind", "mode", "data", "entries", "target", "created_by", "cli_modified", "ino", "last_writer")
+    __slots__ = ("kind", "mode", "data", "entries", "target", "created_by", "cli_modified", "ino", "last_writer",
+                 "mtime")
     _n = 0
 
     def __init__(self, kind, mode, created_by, target=None):
@@ -39,6 +40,9 @@ class Inode:
         self.created_by = created_by  # "pre" | "env" | "cli"
         self.cli_modified = False
         self.last_writer = created_by
+        import time as _t
+        # simulated clock (time.time is pinned while a run is active); what existed before the run is a day old
+        self.mtime = _t.time() - (86400.0 if created_by == "pre" else 0.0)
 
 
 def _err(code, path=None):
@@ -207,7 +211,8 @@ class VFS:
         self._logcall("stat", path, node.kind)
         fmt = {"dir": stat.S_IFDIR, "file": stat.S_IFREG, "link": stat.S_IFLNK}[node.kind]
         size = len(node.data) if node.kind == "file" else 0
-        return os.stat_result((fmt | node.mode, node.ino, 99, 1, 1000, 1000, size, 0, 0, 0))
+        t_ = int(node.mtime)
+        return os.stat_result((fmt | node.mode, node.ino, 99, 1, 1000, 1000, size, t_, t_, t_))
 
     def access(self, path, mode):
         self._boundary("access", path)
@@ -277,6 +282,8 @@ class VFS:
 
     def _touch(self, node, what, path):
         node.last_writer = self.actor
+        import time as _t
+        node.mtime = _t.time()
         if self.actor == "cli":
             if node.created_by != "cli":
                 if not node.cli_modified:
